@@ -48,7 +48,7 @@ from lxml import etree
 from lxml.etree import XMLSyntaxError
 from lxml.etree import XMLParser
 
-from spyne import BODY_STYLE_WRAPPED
+from spyne import BODY_STYLE_WRAPPED, BODY_STYLE_BARE
 from spyne.util import six
 from spyne.const.xml import DEFAULT_NS
 from spyne.const.http import HTTP_405, HTTP_500
@@ -301,6 +301,12 @@ class Soap11(XmlDocument):
             else:
                 ctx.in_object = self.from_element(ctx, body_class,
                                                                 ctx.in_body_doc)
+
+                if ctx.in_object is None and \
+                         ctx.descriptor.body_style is not BODY_STYLE_BARE:
+                    # the wrapper element itself is nil: every argument is
+                    # absent
+                    ctx.in_object = [None] * len(body_class._type_info)
 
         self.event_manager.fire_event('after_deserialize', ctx)
 
